@@ -1,9 +1,13 @@
 import PyAirtouch.Util.Hex
 import PyAirtouch.Model.Crc
+import PyAirtouch.Model.SockValidate
 /-! Line-protocol driver over the *model* (Gen + Model). One request per line, one answer per line. -/
 open PyAirtouch PyAirtouch.Util PyAirtouch.Model
 
-def answer (ws : List String) : String :=
+structure DState where
+  vs : Model.SockValidate.VS := Model.SockValidate.VS.start
+
+def answerPure (ws : List String) : String :=
   match ws with
   | ["crc", h] =>
     match parseHex h with
@@ -20,14 +24,22 @@ def answer (ws : List String) : String :=
     | _, _ => "bad-op"
   | _ => "bad-op"
 
-partial def loop (hin hout : IO.FS.Stream) : IO Unit := do
+def answer (st : DState) (ws : List String) : DState × String :=
+  match ws with
+  | "vt-begin" :: _ | "vl" :: _ | "vs" :: _ | "vt-end" :: _ =>
+    let (v, out) := Model.SockValidate.vLine st.vs ws
+    ({ st with vs := v }, out)
+  | _ => (st, answerPure ws)
+
+partial def loop (hin hout : IO.FS.Stream) (st : DState) : IO Unit := do
   let line ← hin.getLine
   if line.isEmpty then return ()
-  hout.putStrLn (answer (words (line.trimAscii.toString)))
-  loop hin hout
+  let (st', out) := answer st (words (line.trimAscii.toString))
+  hout.putStrLn (out.replace "\n" " ")
+  loop hin hout st'
 
 def main : IO Unit := do
   let hin ← IO.getStdin
   let hout ← IO.getStdout
-  loop hin hout
+  loop hin hout {}
   hout.flush
